@@ -157,12 +157,66 @@ def to_float(c):
     return float(c)
 
 
+HISTORY = True  # a third of the geometries handed to the implementation are *derived* objects (see build)
+
+
+def _shift(c, dt, df):
+    if isinstance(c, list):
+        if len(c) == 2 and not isinstance(c[0], list):
+            return [c[0] + dt, c[1]]
+        if len(c) == 4 and not isinstance(c[0], list):
+            return [c[0] + dt, c[1], c[2] + dt, c[3]]
+        return [_shift(x, dt, df) for x in c]
+    return c + dt
+
+
+def _warm(obj):
+    """use an object the way the library does, so that anything it memoises on the instance is in place"""
+    from soundevent import geometry as _g
+    from soundevent.geometry import operations as _ops
+
+    for fn in (_g.geometry_to_shapely, _g.compute_bounds, lambda o: _ops.buffer_geometry(o, 0.5, 1.0), hash, repr,
+               lambda o: _g.get_geometry_point(o, "center"), lambda o: _g.compute_geometric_features(o)):
+        try:
+            fn(obj)
+        except Exception:
+            pass
+
+
 def build(g: dict):
-    """construct the real soundevent geometry"""
+    """construct the real soundevent geometry.
+
+    Objects carry history in real use: a geometry is often obtained from another one that was already used
+    (`model_copy(update={"coordinates": ...})`, or assignment to `.coordinates` — the models are not frozen). A third
+    of the geometries are therefore built that way: an *ancestor* of the same class with other coordinates is built and
+    used (converted, bounds, buffered, hashed), then the wanted coordinates (as validated by a fresh construction) are
+    put on a copy / on the object itself. The result has exactly the fields of the fresh geometry, so every property
+    must hold for it; the choice is a function of the case (reproducible)."""
     from soundevent import data
 
     cls = getattr(data, g["type"])
-    return cls(coordinates=to_float(g["coordinates"]))
+    fresh = cls(coordinates=to_float(g["coordinates"]))
+    if not HISTORY:
+        return fresh
+    import copy
+    import hashlib
+
+    h = int(hashlib.sha1(repr((g["type"], g["coordinates"])).encode()).hexdigest(), 16) % 6
+    if h > 1:
+        return fresh
+    try:
+        anc = cls(coordinates=to_float(_shift(g["coordinates"], 3, 0)))
+    except Exception:
+        return fresh
+    _warm(anc)
+    coords = copy.deepcopy(fresh.coordinates)
+    if h == 0:
+        out = anc.model_copy(update={"coordinates": coords})
+    else:
+        anc.coordinates = coords
+        out = anc
+    assert out == fresh and out.model_dump() == fresh.model_dump()
+    return out
 
 
 def from_impl(geom) -> dict:
